@@ -152,6 +152,7 @@ impl Array {
                     }
                 });
 
+                let x = x.reshape(target_clone.clone());
                 vec![Some(Array::sliced_op(
                     vec![&x],
                     &op,
